@@ -95,15 +95,15 @@ theorem frontier_ge2 {N : List Nat} {c : Nat} {p : PImg} (h : PagerOK N c p) : 2
   have := h.booted.nextPage
   unfold frontier; omega
 
-theorem storeOK_compact {T : List Tx} {cs cs' : List CTx} {p0 pF : PImg} {covered : List Nat} {n : Nat} {m : Mem}
-    (hst : StoreOK T cs p0) (hcg : CG p0 (scan cs).proot (allProps T) covered (frontier p0) n pF)
+theorem storeOK_compact {T : List Tx} {cs cs' : List CTx} {p0 pF : PImg} {covered : List Nat} {lv : LiveP} {n : Nat} {m : Mem}
+    (hst : StoreOK T cs p0) (hcg : CG p0 (scan cs).proot (allProps T) covered lv (frontier p0) n pF) (hlv : lv.top = (scan cs).ptop)
     (h1 : ∀ q ∈ allProps T, q ∈ (logRuns (scan cs).ckpt cs).flatMap (·.props) ∨ q ∈ covered)
     (h2 : (scan cs).proot = 0 → covered = [])
     (mruns : m.runs = logRuns (scan cs).ckpt cs) (mroot : m.proot = (scan cs).proot) (mptop : m.ptop = (scan cs).ptop)
     (k0 root : Nat) (top : Bool)
     (hseg : ∃ s, segFind pF k0 = some s ∧ s.edges = cEdges m)
     (hsame : cProps m = [] → (root, top) = (m.proot, m.ptop))
-    (htree : cProps m ≠ [] → root ≠ 0 ∧ top = false ∧ ∃ t, treeFind pF root = some t ∧ TreeOK (allProps T) (covered ++ cProps m) t)
+    (htree : cProps m ≠ [] → root ≠ 0 ∧ ∃ t, treeFind pF root = some t ∧ TreeOK (allProps T) (covered ++ cProps m) top t)
     (hsegs : (scan cs').segs = k0 :: (scan cs).segs) (hroot : (scan cs').proot = root) (htop : (scan cs').ptop = top)
     (hruns : logRuns (scan cs').ckpt cs' = []) : StoreOK T cs' pF := by
   have hold : ∀ k ∈ (scan cs).segs, segFind pF k = segFind p0 k := fun k hk =>
@@ -111,7 +111,7 @@ theorem storeOK_compact {T : List Tx} {cs cs' : List CTx} {p0 pF : PImg} {covere
   obtain ⟨s, hs, hse⟩ := hseg
   refine ⟨?_, fun s hs => ⟨Nat.lt_of_lt_of_le (hcg.segKeys s hs) hcg.np, Nat.lt_of_lt_of_le (hcg.segKeys s hs) hcg.bmlo⟩,
     fun t ht => ⟨Nat.lt_of_lt_of_le (hcg.treeKeys t ht) hcg.np, Nat.lt_of_lt_of_le (hcg.treeKeys t ht) hcg.bmlo⟩,
-    ?_, by rw [hruns]; intro q hq; simp at hq, ?_, ?_⟩
+    ?_, by rw [hruns]; intro q hq; simp at hq, ?_⟩
   · intro k hk
     rw [hsegs] at hk
     rcases List.mem_cons.mp hk with rfl | hk
@@ -127,12 +127,6 @@ theorem storeOK_compact {T : List Tx} {cs cs' : List CTx} {p0 pF : PImg} {covere
     simp only [List.flatMap_cons, hE, hk0e, List.flatMap_nil, List.append_nil, List.mem_append]
     rw [← hst.edges e, List.mem_append, cEdges, mruns]
     exact Or.comm
-  · rw [htop]
-    by_cases hp : cProps m = []
-    · have := hsame hp
-      simp only [Prod.mk.injEq] at this
-      rw [this.2, mptop]; exact hst.ptop
-    · exact (htree hp).2.1
   · refine ⟨covered ++ cProps m, ?_, ?_, ?_⟩
     · intro q hq
       right
@@ -147,14 +141,15 @@ theorem storeOK_compact {T : List Tx} {cs cs' : List CTx} {p0 pF : PImg} {covere
         rw [hp, List.append_nil]
         exact h2 (by rw [← mroot, ← this.1]; exact hr0)
       · exact absurd hr0 (htree hp).1
-    · rw [hroot]
+    · rw [hroot, htop]
       intro hrne
       by_cases hp : cProps m = []
       · have := hsame hp
         simp only [Prod.mk.injEq] at this
-        rw [hp, List.append_nil, this.1, mroot]
-        exact hcg.treeLive (by rw [← mroot, ← this.1]; exact hrne)
-      · exact (htree hp).2.2
+        rw [hp, List.append_nil, this.1, this.2, mroot, mptop]
+        obtain ⟨t, last, hf, hok⟩ := hcg.treeLive (by rw [← mroot, ← this.1]; exact hrne)
+        exact ⟨t, hf, by rw [← hlv]; exact hok.treeOK⟩
+      · exact (htree hp).2
 
 end Nervus.Crash
 
@@ -182,8 +177,8 @@ theorem msegs_keys {T : List Tx} {fs : FS} {m : Mem} {cs : List CTx} {c : Nat} (
   exact List.map_id' _
 
 /-- files and memory after the page phase still satisfy the handle invariant (old manifest) -/
-theorem inv_after_pages {cfg : Cfg} {T : List Tx} {fs : FS} {m : Mem} {cs : List CTx} {c : Nat} {covered : List Nat}
-    (h : InvOpen T fs m cs c) (pp : PagesPost cfg T fs m covered)
+theorem inv_after_pages {cfg : Cfg} {T : List Tx} {fs : FS} {m : Mem} {cs : List CTx} {c : Nat} {covered : List Nat} {lv : LiveP}
+    (h : InvOpen T fs m cs c) (hlv : lv.top = (scan cs).ptop) (pp : PagesPost cfg T fs m covered lv)
     (h1 : ∀ q ∈ allProps T, q ∈ (logRuns (scan cs).ckpt cs).flatMap (·.props) ∨ q ∈ covered)
     (h2 : (scan cs).proot = 0 → covered = []) :
     InvOpen T (fs.steps (ioSteps (pagesA cfg m fs.pv).1))
@@ -191,7 +186,7 @@ theorem inv_after_pages {cfg : Cfg} {T : List Tx} {fs : FS} {m : Mem} {cs : List
   obtain ⟨hw, hd, hr⟩ := steps_pager_wal _ pp.pager.facts.2 fs
   obtain ⟨n, hcg⟩ := pp.cg
   rw [h.mroot] at hcg
-  have hst := hcg.storeOK h.store (Nat.le_refl _) rfl h1 h2
+  have hst := hcg.storeOK hlv h.store (Nat.le_refl _) rfl h1 h2
   have hold : ∀ k ∈ (scan cs).segs, segFind (fs.steps (ioSteps (pagesA cfg m fs.pv).1)).pd k = segFind fs.pd k :=
     fun k hk => hcg.segOld k (by have := h.store.segLt k hk; unfold frontier; omega)
   exact
@@ -220,8 +215,8 @@ theorem inv_after_pages {cfg : Cfg} {T : List Tx} {fs : FS} {m : Mem} {cs : List
       mwal := h.mwal }
 
 /-- the representation through the NEW manifest, once the system transaction is in the log -/
-theorem compact_new {cfg : Cfg} {T : List Tx} {fs : FS} {m : Mem} {cs : List CTx} {c : Nat} {covered : List Nat}
-    (h : InvOpen T fs m cs c) (hne : m.runs ≠ []) (pp : PagesPost cfg T fs m covered)
+theorem compact_new {cfg : Cfg} {T : List Tx} {fs : FS} {m : Mem} {cs : List CTx} {c : Nat} {covered : List Nat} {lv : LiveP}
+    (h : InvOpen T fs m cs c) (hlv : lv.top = (scan cs).ptop) (hne : m.runs ≠ []) (pp : PagesPost cfg T fs m covered lv)
     (h1 : ∀ q ∈ allProps T, q ∈ (logRuns (scan cs).ckpt cs).flatMap (·.props) ∨ q ∈ covered)
     (h2 : (scan cs).proot = 0 → covered = []) :
     scan (compactCs cfg m fs.pv cs) =
@@ -247,10 +242,10 @@ theorem compact_new {cfg : Cfg} {T : List Tx} {fs : FS} {m : Mem} {cs : List CTx
   obtain ⟨n, hcg⟩ := pp.cg
   rw [h.mroot] at hcg
   refine ⟨hsc, hruns, c', hlog', (hcg.pagerOK h.pager (frontier_ge2 h.pager)).raise (by rw [hcg.hdr.len, h.full]; exact hc'), ?_⟩
-  have htree' : cProps m ≠ [] → (pagesA cfg m fs.pv).2.2.2.1 ≠ 0 ∧ (pagesA cfg m fs.pv).2.2.2.2 = false ∧
+  have htree' : cProps m ≠ [] → (pagesA cfg m fs.pv).2.2.2.1 ≠ 0 ∧
       ∃ t, treeFind (fs.steps (ioSteps (pagesA cfg m fs.pv).1)).pd (pagesA cfg m fs.pv).2.2.2.1 = some t ∧
-        TreeOK (allProps T) (covered ++ cProps m) t := pp.tree
-  exact storeOK_compact (m := m) h.store hcg h1 h2 h.mruns h.mroot h.mptop (pagesA cfg m fs.pv).2.2.1 (pagesA cfg m fs.pv).2.2.2.1
+        TreeOK (allProps T) (covered ++ cProps m) (pagesA cfg m fs.pv).2.2.2.2 t := pp.tree
+  exact storeOK_compact (m := m) h.store hcg hlv h1 h2 h.mruns h.mroot h.mptop (pagesA cfg m fs.pv).2.2.1 (pagesA cfg m fs.pv).2.2.2.1
     (pagesA cfg m fs.pv).2.2.2.2 pp.seg (fun hp => by rw [← pp.same hp]) htree'
     (by rw [hsc]) (by rw [hsc]) (by rw [hsc]) (by rw [hsc]; exact hruns)
 
@@ -291,10 +286,10 @@ theorem compactA_steps (cfg : Cfg) (m : Mem) (vol : PImg) (w : List Frag) (hne :
     rw [memUpds_append_noFail _ _ i2, i3]
     simp [memUpds]
 
-/-- **compaction is crash-safe at every I/O step** (no leaf split; crash images that tear no leaf
+/-- **compaction is crash-safe at every I/O step** (no in-place leaf split of the LIVE tree; crash images that tear no leaf
     write of the live property tree): after any prefix of its steps every such image represents `T`. -/
 theorem compact_safe {cfg : Cfg} {T : List Tx} {fs : FS} {m : Mem} {cs : List CTx} {c : Nat}
-    (h : InvOpen T fs m cs c) (ht : TailPre cfg fs m) (hns : NoSplit cfg m fs.pv) :
+    (hcap1 : 1 ≤ cfg.leafCap) (h : InvOpen T fs m cs c) (ht : TailPre cfg fs m) (hns : NoLiveSplit cfg m fs.pv) :
     SafeAlong (SafeFSL m.proot [T]) fs (ioSteps (compactA cfg m fs.pv fs.wf)) := by
   have hsafe0 : SafeFS [T] fs := safeFS_of_stable h.pj h.wal h.log h.pager h.store
   by_cases hne : m.runs.isEmpty = true
@@ -305,7 +300,7 @@ theorem compact_safe {cfg : Cfg} {T : List Tx} {fs : FS} {m : Mem} {cs : List CT
   have hruns : m.runs ≠ [] := by
     intro h0; rw [h0] at hne'; simp at hne'
   obtain ⟨covered, h1, h2, h3⟩ := h.store.props
-  have pp := pages_post h hns covered h2 h3
+  obtain ⟨lv, hlv, pp⟩ := pages_post hcap1 h hns covered h2 h3
   obtain ⟨hS, _, _⟩ := compactA_steps cfg m fs.pv fs.wf hne' h.mwal pp.nofail
   rw [hS]
   -- (1) page phase
@@ -318,13 +313,13 @@ theorem compact_safe {cfg : Cfg} {T : List Tx} {fs : FS} {m : Mem} {cs : List CT
     have hst : WalStable cs (fs.steps ((ioSteps (pagesA cfg m fs.pv).1).take n)) :=
       ⟨by rw [hr]; exact h.wal.ren, by rw [hd, hw]; exact h.wal.wdur, fun k hk => by rw [hw]; exact h.wal.stable k (by rw [← hd]; exact hk)⟩
     obtain ⟨k, hk, hW⟩ := hst.crashW mode
-    exact ⟨T, by simp, cs, c, by rw [hW]; exact hst.stable k hk, h.log, hcg.pagerOK h.pager (frontier_ge2 h.pager), hcg.storeOK h.store (Nat.le_refl _) rfl h1 h2⟩
+    exact ⟨T, by simp, cs, c, by rw [hW]; exact hst.stable k hk, h.log, hcg.pagerOK h.pager (frontier_ge2 h.pager), hcg.storeOK hlv h.store (Nat.le_refl _) rfl h1 h2⟩
   apply safeAlong_append sa1
   -- (2) tail cut
-  have hinv := inv_after_pages h pp h1 h2
+  have hinv := inv_after_pages h hlv pp h1 h2
   obtain ⟨hwP, hdP, hrP⟩ := steps_pager_wal _ pp.pager.facts.2 fs
   generalize hfsP : fs.steps (ioSteps (pagesA cfg m fs.pv).1) = fsP at hinv hwP hdP hrP
-  have hnew := compact_new h hruns pp h1 h2
+  have hnew := compact_new h hlv hruns pp h1 h2
   rw [hfsP] at hnew
   have htP : TailPre cfg fsP { m with pm := (pagesA cfg m fs.pv).2.1.pm, bm := (pagesA cfg m fs.pv).2.1.bm } := by
     rcases ht with ht | ht
@@ -421,7 +416,7 @@ theorem compact_mem (m : Mem) (L cut : List MemUpd) (hL : OnlySetPm L) (hcut : c
 /-- **a completed compaction re-establishes the handle invariant** (same committed list, new
     manifest) and leaves a log without torn tail (unless there was nothing to compact) -/
 theorem compact_post {cfg : Cfg} {T : List Tx} {fs : FS} {m : Mem} {cs : List CTx} {c : Nat}
-    (h : InvOpen T fs m cs c) (ht : TailPre cfg fs m) (hns : NoSplit cfg m fs.pv) :
+    (hcap1 : 1 ≤ cfg.leafCap) (h : InvOpen T fs m cs c) (ht : TailPre cfg fs m) (hns : NoLiveSplit cfg m fs.pv) :
     ∃ cs' c', InvOpen T (fs.steps (ioSteps (compactA cfg m fs.pv fs.wf)))
         ((memUpds (compactA cfg m fs.pv fs.wf)).foldl applyUpd m) cs' c' ∧
       TailPre cfg (fs.steps (ioSteps (compactA cfg m fs.pv fs.wf))) ((memUpds (compactA cfg m fs.pv fs.wf)).foldl applyUpd m) := by
@@ -433,12 +428,12 @@ theorem compact_post {cfg : Cfg} {T : List Tx} {fs : FS} {m : Mem} {cs : List CT
   have hruns : m.runs ≠ [] := by
     intro h0; rw [h0] at hne'; simp at hne'
   obtain ⟨covered, h1, h2, h3⟩ := h.store.props
-  have pp := pages_post h hns covered h2 h3
+  obtain ⟨lv, hlv, pp⟩ := pages_post hcap1 h hns covered h2 h3
   obtain ⟨hS, _, hM⟩ := compactA_steps cfg m fs.pv fs.wf hne' h.mwal pp.nofail
   rw [hS, hM]
-  have hinv := inv_after_pages h pp h1 h2
+  have hinv := inv_after_pages h hlv pp h1 h2
   obtain ⟨hwP, hdP, hrP⟩ := steps_pager_wal _ pp.pager.facts.2 fs
-  have hnew := compact_new h hruns pp h1 h2
+  have hnew := compact_new h hlv hruns pp h1 h2
   have hsegE : segEdges (fs.steps (ioSteps (pagesA cfg m fs.pv).1)).pd (pagesA cfg m fs.pv).2.2.1 = cEdges m := by
     obtain ⟨s, hs, hse⟩ := pp.seg
     simp [segEdges, hs, hse]
